@@ -75,9 +75,9 @@ def shrink(ctx, driver, case, to_term, header, case_type, which, step, clause, r
 
 
 def run(ctx, driver, cases, to_term, header, case_type, key_fn, describe, nontrivial, relation,
-        sanitize=False, tag="cases", do_shrink=True):
+        sanitize=False, tag="cases", do_shrink=True, shard=1000, first_step_only=False):
     """Evaluate all cases.  Reports failures through ctx.fail.  Returns number of cases evaluated."""
-    obs, corr, law, err = evaluate(ctx, driver, cases, to_term, header, case_type, tag, sanitize=sanitize)
+    obs, corr, law, err = evaluate(ctx, driver, cases, to_term, header, case_type, tag, sanitize=sanitize, shard=shard)
     if err:
         ctx.obligation("correspondence " + relation, False, err[-800:])
         ctx.fail("harness/" + tag, "correspondence %s could not be evaluated: %s" % (relation, err[-400:]),
@@ -88,7 +88,14 @@ def run(ctx, driver, cases, to_term, header, case_type, key_fn, describe, nontri
         ctx.case_seen(sig, nt)
     ctx.cov["traces_validated_against_impl"] += len(cases)
     lawg, corrg = _group(law), _group(corr)
+    if first_step_only:
+        # for laws whose failure persists along the history (state divergence): keep the earliest failing step
+        for g in (lawg, corrg):
+            for i in g:
+                m = min(code // 100 for code in g[i])
+                g[i] = [code for code in g[i] if code // 100 == m]
     reported = set()
+    shrink_budget = [3]     # shrinking costs driver + coqc runs: only the first few distinct failures are minimised
     # (a) every implementation observation on which the law is false is a failing input
     for i in sorted(lawg):
         for code in sorted(lawg[i]):
@@ -99,7 +106,8 @@ def run(ctx, driver, cases, to_term, header, case_type, key_fn, describe, nontri
             reported.add(key)
             known = any(e.get("status") == "known" and e.get("key") == key for e in ctx.known)
             case, ob, st = cases[i], obs[i], step
-            if do_shrink and not known:
+            if do_shrink and not known and shrink_budget[0] > 0:
+                shrink_budget[0] -= 1
                 case, ob2, st = shrink(ctx, driver, cases[i], to_term, header, case_type, "law", step, clause)
                 ob = ob2 if ob2 is not None else obs[i]
                 if ob2 is None:
